@@ -28,6 +28,7 @@ import (
 	"oras.land/oras-go/v2/internal/descriptor"
 	"oras.land/oras-go/v2/internal/status"
 	"oras.land/oras-go/v2/internal/syncutil"
+	"oras.land/oras-go/v2/internal/verifhook"
 )
 
 // Memory is a memory based PredecessorFinder.
@@ -105,6 +106,7 @@ func (m *Memory) IndexAll(ctx context.Context, fetcher content.Fetcher, node oci
 // However, it does not necessarily correspond to any consistent snapshot of
 // the stored contents.
 func (m *Memory) Predecessors(_ context.Context, node ocispec.Descriptor) ([]ocispec.Descriptor, error) {
+	verifhook.Point("graph.Predecessors")
 	m.lock.RLock()
 	defer m.lock.RUnlock()
 
@@ -123,6 +125,7 @@ func (m *Memory) Predecessors(_ context.Context, node ocispec.Descriptor) ([]oci
 // Remove removes the node from its predecessors and successors, and returns the
 // dangling root nodes caused by the deletion.
 func (m *Memory) Remove(node ocispec.Descriptor) []ocispec.Descriptor {
+	verifhook.Point("graph.Remove")
 	m.lock.Lock()
 	defer m.lock.Unlock()
 
@@ -166,6 +169,7 @@ func (m *Memory) index(ctx context.Context, fetcher content.Fetcher, node ocispe
 	if err != nil {
 		return nil, err
 	}
+	verifhook.Point("graph.index")
 	m.lock.Lock()
 	defer m.lock.Unlock()
 
